@@ -13,98 +13,6 @@ import (
 	"github.com/gardenbed/emerge/verif/rx"
 )
 
-func atomsCore() []*regexref.Atom {
-	a, b := regexref.Lit('a'), regexref.Lit('b')
-	return []*regexref.Atom{a, b, regexref.Dot(), regexref.GroupAtom(false, a, b), regexref.GroupAtom(true, a), regexref.ClassAtom(`\d`)}
-}
-
-func quantsCore() []*regexref.Quant {
-	var out []*regexref.Quant
-	for _, t := range []string{"?", "*", "+", "{2}", "{1,}", "{0,2}"} {
-		out = append(out, regexref.MkQuant(t, false))
-	}
-	return append(out, regexref.MkQuant("*", true))
-}
-
-// allAtoms lists every class, escape and bracket form individually.
-func allAtoms() []*regexref.Atom {
-	L := regexref.Lit
-	var out []*regexref.Atom
-	for _, r := range []rune{'a', 'b', 'c', 'Z', '0', '_', ' ', '~', '!', '"', '\'', '/', '-', ',', ':'} {
-		out = append(out, L(r))
-	}
-	// '^' cannot be escaped with a backslash and is the start anchor in first position: written as \x5E.
-	out = append(out, &regexref.Atom{Text: `\x5E`, Set: regexref.Runes('^')})
-	for _, r := range regexref.EscapedChars {
-		out = append(out, L(r))
-	}
-	for _, t := range []struct {
-		text string
-		r    rune
-	}{{`\x61`, 'a'}, {`\x0061`, 'a'}, {`\x000061`, 'a'}, {`\x00000061`, 'a'}, {`\x09`, '\t'}, {`\x0A`, '\n'}, {`\x7F`, 0x7F}, {`\x01`, 1},
-		{`\xE9`, 0xE9}, {`\x00E9`, 0xE9}, {`\x0100`, 0x100}, {`\x4E00`, 0x4E00}, {`\x01F600`, 0x1F600}, {`\x0001F600`, 0x1F600}} {
-		out = append(out, &regexref.Atom{Text: t.text, Set: regexref.Runes(t.r)})
-	}
-	out = append(out, regexref.Dot())
-	for _, c := range []string{`\d`, `\D`, `\w`, `\W`, `\s`, `\S`} {
-		out = append(out, regexref.ClassAtom(c))
-	}
-	for _, c := range regexref.ASCIIClassNames {
-		out = append(out, regexref.ClassAtom(c))
-	}
-	a, b, c := L('a'), L('b'), L('c')
-	G, R, C := regexref.GroupAtom, regexref.RangeAtom, regexref.ClassAtom
-	out = append(out,
-		G(false, a), G(false, a, b), G(true, a), G(true, a, b), G(false, R('a', 'c')), G(true, R('a', 'c')), G(false, R('a', 'a')),
-		G(false, R('a', 'c'), R('0', '2')), G(false, R('a', 'c'), L('x')), G(false, L('x'), R('a', 'c')),
-		G(false, C(`\d`)), G(true, C(`\d`)), G(false, C(`\D`)), G(false, C(`\w`), L('-')), G(false, C(`\s`), C(`\S`)), G(true, C(`\s`), C(`\S`)),
-		G(false, C(`[:digit:]`), L('x')), G(true, C(`[:alpha:]`)), G(false, C(`[:ascii:]`)), G(true, C(`[:ascii:]`)), G(false, C(`[:space:]`), C(`[:upper:]`)),
-		G(false, L('.'), L(']'), L('[')), G(false, L('\\')), G(true, L('\\'), L(']')), G(false, a, L('^')),
-		G(false, &regexref.Atom{Text: `\x41-\x43`, Set: regexref.NewSet(regexref.Range{Lo: 'A', Hi: 'C'})}),
-		G(false, &regexref.Atom{Text: `\x0041-\x0043`, Set: regexref.NewSet(regexref.Range{Lo: 'A', Hi: 'C'})}),
-		G(false, R(0x100, 0x102)), G(false, a, L(0x100)), G(true, L(0x100)), G(false, R('z', 0x100)), G(false, R(0xE9, 0xE9)),
-		G(false, R(0x1F600, 0x1F602)), G(true, a, R(0x4E00, 0x4E01)),
-		G(false, a, b, c, L('0'), L('_')),
-	)
-	return out
-}
-
-func single(a *regexref.Atom, q *regexref.Quant) *regexref.Item { return &regexref.Item{Atom: a, Q: q} }
-func sub(items ...*regexref.Item) *regexref.Sub                  { return &regexref.Sub{Items: items} }
-func expr(subs ...*regexref.Sub) *regexref.Expr                  { return &regexref.Expr{Alts: subs} }
-func group(e *regexref.Expr, q *regexref.Quant) *regexref.Item   { return &regexref.Item{Group: e, Q: q} }
-
-// contexts embeds one atom in the contexts that expose over-/under-matching at its borders.
-func contexts(at *regexref.Atom) []*regexref.Expr {
-	a, b := regexref.Lit('a'), regexref.Lit('b')
-	star := regexref.MkQuant("*", false)
-	plus := regexref.MkQuant("+", false)
-	return []*regexref.Expr{
-		expr(sub(single(at, nil))),
-		expr(sub(single(at, star))),
-		expr(sub(single(a, nil), single(at, nil), single(b, nil))),
-		expr(sub(single(at, nil)), sub(single(b, nil))),
-		expr(sub(group(expr(sub(single(at, nil))), plus))),
-		expr(sub(single(at, nil), single(at, nil))),
-	}
-}
-
-// quantBodies applies one quantifier to the bodies that distinguish quantifier bugs.
-func quantBodies(q *regexref.Quant) []*regexref.Expr {
-	a, b := regexref.Lit('a'), regexref.Lit('b')
-	opt := regexref.MkQuant("?", false)
-	return []*regexref.Expr{
-		expr(sub(single(a, q))),
-		expr(sub(single(regexref.Dot(), q))),
-		expr(sub(group(expr(sub(single(a, nil), single(b, nil))), q))),
-		expr(sub(group(expr(sub(single(a, opt))), q))),
-		expr(sub(group(expr(sub(single(a, nil)), sub(single(b, nil))), q))),
-		expr(sub(single(b, nil), single(a, q), single(b, nil))),
-		expr(sub(single(a, q), single(a, nil))),
-		expr(sub(group(expr(sub(single(a, q))), q))),
-	}
-}
-
 func main() {
 	r := ev.Start("C02", "model_checking")
 	if r.Replay != "" {
@@ -120,6 +28,9 @@ func main() {
 		fmt.Printf("replay %q: ok=%v class=%q %s\n", in.Text, o.OK, o.Class, o.Msg)
 		if !o.OK {
 			r.Report(o.Class, o.Msg, in)
+			for _, m := range o.More {
+				r.Report(m.Class, m.Msg, in)
+			}
 		}
 		r.Finish()
 	}
@@ -151,48 +62,16 @@ func main() {
 		}
 		if !o.OK {
 			r.Report(o.Class, o.Msg, map[string]string{"Text": text})
+			for _, m := range o.More {
+				r.Report(m.Class, m.Msg, map[string]string{"Text": text})
+			}
 		}
 	}
 	r.Set("exhaustive", true)
 
-	// (a) full tree enumeration
-	maxSize := 2
-	if !r.Quick() {
-		maxSize = 3
-	}
-	pools := regexref.Pools{Atoms: atomsCore(), Quants: quantsCore()}
-	for n, level := range regexref.Trees(pools, maxSize) {
-		for _, t := range level {
-			check(t, fmt.Sprintf("trees_size%d", n))
-		}
-	}
-	// (a') one size deeper over a reduced alphabet
-	small := regexref.Pools{Atoms: []*regexref.Atom{regexref.Lit('a'), regexref.Dot()}, Quants: []*regexref.Quant{regexref.MkQuant("?", false), regexref.MkQuant("*", false)}}
-	if !r.Quick() {
-		small.Atoms = append(small.Atoms, regexref.Lit('b'))
-		small.Quants = append(small.Quants, regexref.MkQuant("{2}", false))
-	}
-	for n, level := range regexref.Trees(small, maxSize+1) {
-		if n != maxSize+1 {
-			continue
-		}
-		for _, t := range level {
-			check(t, fmt.Sprintf("trees_small_size%d", n))
-		}
-	}
-	r.Set("bound_tree_size_full_pools", maxSize)
-	r.Set("bound_tree_size_reduced_pools", maxSize+1)
-	// (b) every atom form, every quantifier form
-	for _, at := range allAtoms() {
-		for _, t := range contexts(at) {
-			check(t, "atoms")
-		}
-	}
-	for _, q := range regexref.AllQuants() {
-		for _, t := range quantBodies(q) {
-			check(t, "quantifiers")
-		}
-	}
+	mf, mr := rx.Space(r.Quick(), check)
+	r.Set("bound_tree_size_full_pools", mf)
+	r.Set("bound_tree_size_reduced_pools", mr)
 	// (c) predefined patterns
 	for name, p := range parser.Predefs {
 		t, err := regexref.Parse(p)
@@ -210,7 +89,7 @@ func main() {
 // selfTest cross-checks the reference matcher against Go's regexp on the shared syntax, and the
 // printer against the reference parser. A failure is a harness bug: exit 2, never a VIOLATION.
 func selfTest() {
-	pools := regexref.Pools{Atoms: atomsCore(), Quants: quantsCore()}
+	pools := regexref.Pools{Atoms: rx.AtomsCore(), Quants: rx.QuantsCore()}
 	var strs [][]rune
 	sig := []rune{'a', 'b', '0', '\n'}
 	var gen func(cur []rune, n int)
